@@ -373,6 +373,12 @@ func (group *Group) addIn() {
 
 // delIn 有pub或pull的输入型session离开时，需要调用该函数
 func (group *Group) delIn() {
+	// 输入流结束时，把rtmp合并发送缓存中属于这路输入流的数据发送给当前的订阅者，
+	// 否则这部分数据会滞留到下一路输入流到来时才发出（并且是按那时的订阅者状态发出）
+	if group.rtmpMergeWriter != nil {
+		group.rtmpMergeWriter.Flush()
+	}
+
 	// 注意，remuxer放前面，使得有机会将内部缓存的数据吐出来
 	if group.rtmp2MpegtsRemuxer != nil {
 		group.rtmp2MpegtsRemuxer.Dispose()
